@@ -9,6 +9,7 @@
 //! abstract form (for the Lean model, which does not model the parser).
 mod alloc;
 mod gen;
+mod probe;
 mod shadow;
 
 use flute::core::UDPEndpoint;
@@ -149,7 +150,8 @@ struct Cfg {
     check: bool,
     skew: i64,
     sct: bool,
-    fast: bool,
+    /// 0 = time-outs of 1 h, 1 = 1 ms, 2 = 40 ms (per-object staleness cases)
+    fast: u8,
 }
 
 pub struct RecvEngine {
@@ -163,13 +165,26 @@ pub struct RecvEngine {
     max_xml: usize,
     /// an allocation oracle already fired in this case (reported once per case)
     heap_reported: bool,
+    heap17_reported: bool,
+    cur_encoded: bool,
+    /// bytes that the FTIs announced so far in this case explain (first two source blocks of any
+    /// announced size, per-symbol tables, pre-allocated block tables): see findings recv-1 / D31
+    ann: HashMap<u128, (i64, i64)>,
+    /// net heap growth during calls on TOI-0 packets
+    grown_toi0: i64,
+    cur_key: u128,
+    cur_is_toi0: bool,
 }
 
 fn make_rx(c: &Cfg, count: bool) -> Rx {
     let log: Log = Rc::new(RefCell::new(Vec::new()));
     let cur_fdt = Rc::new(Cell::new(0u32));
     let builder = Rc::new(RecBuilder { log: log.clone(), cur_fdt: cur_fdt.clone() });
-    let to = if c.fast { Duration::from_millis(1) } else { Duration::from_secs(3600) };
+    let to = match c.fast {
+        1 => Duration::from_millis(1),
+        2 => Duration::from_millis(40),
+        _ => Duration::from_secs(3600),
+    };
     let config = RxConfig {
         max_objects_error: c.max_err,
         session_timeout: if c.sess_to { Some(to) } else { None },
@@ -203,7 +218,7 @@ fn panic_class(loc: &str) -> String {
 
 impl RecvEngine {
     pub fn new() -> RecvEngine {
-        RecvEngine { rx: None, rx0: None, cfg: Cfg::default(), dead: false, hist: HashMap::new(), sh: Shadow::default(), max_xml: 0, heap_reported: false }
+        RecvEngine { rx: None, rx0: None, cfg: Cfg::default(), dead: false, hist: HashMap::new(), sh: Shadow::default(), max_xml: 0, heap_reported: false, heap17_reported: false, cur_encoded: false, ann: HashMap::new(), grown_toi0: 0, cur_key: 0, cur_is_toi0: false }
     }
 
     fn drop_rx(&mut self) {
@@ -241,25 +256,44 @@ impl RecvEngine {
                 return "PANIC".to_string();
             }
         };
-        if dt > Duration::from_secs(2) {
-            o.fail("C04:slow-call", &format!("{} took {:?}", what, dt));
-        }
         let rx = self.rx.as_ref().unwrap();
         let (nobj, nerr) = (rx.r.nb_objects(), rx.r.nb_objects_error());
         // ---- C17: the list of failed objects never exceeds its configured length
         if nerr > self.cfg.max_err {
             o.fail("C17:errors-over-limit", &format!("nb_objects_error {} > max_objects_error {}", nerr, self.cfg.max_err));
         }
-        // ---- C04: no single call allocates beyond the configured limits
+        // ---- C04: no single call allocates beyond the configured limits.  Classes by mechanism:
+        //   :announced-block  the excess is explained by what the FTI of this TOI announced (first two
+        //                     source blocks of any size + per-symbol tables: finding recv-1 / D31)
+        //   :unexplained      anything else
         let live = alloc::live();
         let grown = live - LIVE_BEFORE.with(|c| c.get());
+        if self.cur_is_toi0 {
+            self.grown_toi0 += grown.max(0);
+        }
+        let (ann_blocks, ann_table) = self.ann.get(&self.cur_key).copied().unwrap_or((0, 0));
         let call_bound = 2 * 1024 * 1024 + self.cfg.max_cache as i64;
         if grown > call_bound && !self.heap_reported {
             self.heap_reported = true;
+            // TOI 0: the FDT document itself has no size limit at all (finding recv-2): parsing / cloning a
+            // document of the announced size, or inflating a content-encoded one
+            let cls = if self.cur_is_toi0 && grown <= call_bound + 64 * self.sh.max_len() as i64 {
+                "C04:alloc-per-call:fdt-document"
+            } else if self.cur_is_toi0 && self.cur_encoded {
+                "C04:alloc-per-call:fdt-inflated"
+            } else if !self.cur_is_toi0 && grown <= call_bound + 4 * (ann_blocks + ann_table) {
+                "C04:alloc-per-call:announced-block"
+            } else {
+                "C04:alloc-per-call:unexplained"
+            };
             o.fail(
-                "C04:alloc-per-call",
-                &format!("{} allocated {} B in one call (bound {} B = 2 MiB + object_max_cache_size {})", what, grown, call_bound, self.cfg.max_cache),
+                cls,
+                &format!("{} allocated {} B in one call (bound {} B = 2 MiB + object_max_cache_size {}; announced by the FTI of this TOI: blocks+symbol tables {} B, block table {} B)", what, grown, call_bound, self.cfg.max_cache, ann_blocks, ann_table),
             );
+        }
+        if dt > Duration::from_secs(2) {
+            let cls = if ann_blocks + ann_table >= 64 * 1024 * 1024 { "C04:slow-call:announced-block" } else { "C04:slow-call:unexplained" };
+            o.fail(cls, &format!("{} took {:?} (announced by the FTI of this TOI: {} B)", what, dt, ann_blocks + ann_table));
         }
         // ---- C17: live heap against the configured limits (generous slack; measured, not modelled)
         let unfinished = self.sh.unfinished() as i64;
@@ -267,11 +301,23 @@ impl RecvEngine {
             + unfinished * (1024 * 1024 + 16 * 1024)
             + 1024 * 1024
             + 64 * self.max_xml as i64;
-        if live > bound && !self.heap_reported {
-            self.heap_reported = true;
+        if live > bound && !self.heap17_reported {
+            self.heap17_reported = true;
+            let sum_blocks: i64 = self.ann.values().map(|x| x.0).sum();
+            let sum_table: i64 = self.ann.values().map(|x| x.1).sum();
+            let excess = live - bound;
+            let cls = if excess <= 4 * sum_table && sum_table >= sum_blocks {
+                "C17:heap:block-table-prealloc"
+            } else if excess <= 4 * (sum_blocks + sum_table) {
+                "C17:heap-first-two-blocks"
+            } else if excess <= 2 * self.grown_toi0 {
+                "C17:heap:fdt-bytes"
+            } else {
+                "C17:heap:unexplained"
+            };
             o.fail(
-                "C17:heap-over-config",
-                &format!("live heap {} B > bound {} B (objects {}, unfinished FDT instances {}, cache limit {})", live, bound, nobj, unfinished, self.cfg.max_cache),
+                cls,
+                &format!("live heap {} B > bound {} B (objects {}, unfinished FDT instances {}, cache limit {}; announced blocks {} B, block tables {} B, grown in TOI-0 calls {} B)", live, bound, nobj, unfinished, self.cfg.max_cache, sum_blocks, sum_table, self.grown_toi0),
             );
         }
         // ---- history + C19 oracle on writer creation
@@ -312,6 +358,27 @@ impl RecvEngine {
         // oracle shadow (independent of the model): FDT instances seen so far
         let info = guarded(|| parse_info(bytes));
         let mut fdt_id = 0;
+        self.cur_key = 0;
+        self.cur_is_toi0 = false;
+        self.cur_encoded = false;
+        if let Ok(Ok(i)) = &info {
+            if i.tsi == TSI {
+                self.cur_is_toi0 = i.toi == 0;
+                self.cur_encoded = i.encoded;
+                self.cur_key = if i.toi == 0 { u128::MAX - i.fdt_id.unwrap_or(0) as u128 } else { i.toi };
+                if let Some((_, e, b, l)) = i.fti {
+                    let (e, b, l) = (e.max(1) as i128, b.max(1) as i128, l as i128);
+                    let t = (l + e - 1) / e;
+                    let n = (t + b - 1) / b;
+                    let blk = l.min(b * e);
+                    let blocks = (2 * (2 * blk + 48 * t.min(b))).min(i64::MAX as i128 / 8) as i64;
+                    let table = (200 * n.min(4097)) as i64;
+                    let ent = self.ann.entry(self.cur_key).or_insert((0, 0));
+                    ent.0 = ent.0.max(blocks);
+                    ent.1 = ent.1.max(table);
+                }
+            }
+        }
         if let Ok(Ok(i)) = &info {
             if i.tsi == TSI && i.toi == 0 {
                 if let Some(id) = i.fdt_id {
@@ -361,6 +428,12 @@ impl Engine for RecvEngine {
         self.sh = Shadow::default();
         self.max_xml = 0;
         self.heap_reported = false;
+        self.heap17_reported = false;
+        self.cur_encoded = false;
+        self.ann.clear();
+        self.grown_toi0 = 0;
+        self.cur_key = 0;
+        self.cur_is_toi0 = false;
         self.cfg = Cfg::default();
     }
 
@@ -382,7 +455,7 @@ impl Engine for RecvEngine {
                     check: b(t[7]),
                     skew: t[8].parse().unwrap_or(0),
                     sct: b(t[9]),
-                    fast: b(t[10]),
+                    fast: t[10].parse().unwrap_or(0),
                 };
                 self.cfg = c;
                 alloc::reset();
@@ -411,6 +484,20 @@ impl Engine for RecvEngine {
                 }
                 obs
             }
+            "sleep" if t.len() >= 3 => {
+                std::thread::sleep(Duration::from_millis(t[2].parse().unwrap_or(0)));
+                "ok".into()
+            }
+            "probe" => {
+                if self.dead || self.rx.is_none() {
+                    return "dead".into();
+                }
+                let d = format!("{:?}", self.rx.as_ref().unwrap().r);
+                if std::env::var("RECV_DUMP").is_ok() {
+                    eprintln!("{}", d);
+                }
+                probe::probe(&d)
+            }
             "fzc" if t.len() >= 3 => {
                 if self.dead || self.rx.is_none() {
                     return "fz".into();
@@ -429,7 +516,9 @@ impl Engine for RecvEngine {
                     return "dead".into();
                 }
                 let now: i64 = t[2].parse().unwrap_or(0);
-                let stale = b(t[3]);
+                // `1`: every time-out has elapsed (1 ms time-outs, sleep here); `T../F..`: the generator slept
+                // between groups of pushes itself (40 ms time-outs); `0`: nothing elapsed
+                let stale = t[3] == "1";
                 if stale {
                     std::thread::sleep(Duration::from_millis(3));
                 }
